@@ -14,3 +14,4 @@ def run(prog, rec, tier):
     C = cli_rules.CliRules(prog, rec)
     C.exit_mapping()
     rec.obls = [o for o in rec.obls if o.rule in RULES]
+    rec.instances = {k: v for k, v in rec.instances.items() if any(k.startswith(r) for r in RULES)}
